@@ -166,6 +166,23 @@ CLAIMED['C10'] = dict(engine='Sequencer', technique=SEQ_TECH, design_ref='DESIGN
          'processes never stop and targets are lost; TLC checks the bound computed from the configuration, termination '
          'and the visibility of what was given up.')
 
+CLAIMED['C05'] = dict(
+    engine='Concil',
+    technique='TLA+ design model Concil.tla (OPERATION / CONCILIATION loop, six strategies, stop / restart requests, '
+              'events in a FIFO) model-checked by TLC incl. liveness + skeletons of its behaviours (ConcilH.tla) '
+              'replayed on a real 3-instance cluster with outcome comparison + TLC monitor (ConcilMon.tla, sharing '
+              'ConcilDef.tla with the model) over every recorded run (skeletons, directed and seeded scenarios)',
+    text='TLC exhausts the design loop for each strategy (ExactStops, UnmanagedNever, UserNothing, KeepsOne, Leaves, '
+         'UserStays); the same StopSets definition judges the stop / start requests really emitted by the Master of a '
+         'real cluster against the true Supervisor process tables and start dates, for duplicates created by direct '
+         'Supervisor starts, by new conflicts arriving during a conciliation, by a healed partition, with copies that '
+         'die or never stop, and user resolution.',
+    design_ref='DESIGN.md 3 C05',
+    note='Trusted: SimCluster; n1 is the Master; start dates closer than one tick period are not ordered (uptimes are '
+         'refreshed once per tick); with an application-level running failure strategy under RUNNING_FAILURE only '
+         'detection, Master-only and termination are judged (the stops then follow C06). Sampled scenarios, not '
+         'exhaustive on the implementation side.')
+
 PENDING_REASON = 'check not built yet (work in progress; see DESIGN.md section 3)'
 
 
